@@ -281,10 +281,11 @@ Proof. exact best_block_cmp_example. Qed.
 Print Assumptions C25_best_block_cmp_example.
 
 (** The guard that the correspondence check evaluates is the theorems' guard:
-    the accumulator of an accepted case is the tracked run ([xrun], [held_of],
-    [steady]) over the case's events written out as a history. *)
-Theorem C25_check_guard_is_theorem_guard : forall P T evs obs fmain pool g T' a,
-  T = g :: T' -> model_ok_x P T evs obs fmain pool = Some a ->
+    the accumulator of a case (whether or not the node agreed with the model)
+    is the tracked run ([xrun], [held_of], [steady]) over the case's events
+    written out as a history. *)
+Theorem C25_check_guard_is_theorem_guard : forall P T evs obs fmain pool g T' a ok,
+  T = g :: T' -> model_ok_x P T evs obs fmain pool = Some (a, ok) ->
   acc_state a = xrun P g 0 (expand T evs) /\
   snd (fst a) = held_of P g 0 (expand T evs) /\
   snd a = steady P g 0 (expand T evs).
